@@ -12,9 +12,11 @@ pub mod c08;
 pub mod c09;
 pub mod c10;
 pub mod c11;
+pub mod c12;
 pub mod c13;
 pub mod c16;
 pub mod c17;
+pub mod c18;
 pub mod c20;
 pub mod numcommon;
 
@@ -68,9 +70,11 @@ pub fn all() -> Vec<Box<dyn Prop>> {
         Box::new(c09::C09),
         Box::new(c10::C10),
         Box::new(c11::C11),
+        Box::new(c12::C12),
         Box::new(c13::C13),
         Box::new(c16::C16),
         Box::new(c17::C17),
+        Box::new(c18::C18),
         Box::new(c20::C20),
     ]
 }
